@@ -26,6 +26,9 @@
      list                             -> a|d:<id>=<content> ... (existing known paths, sorted)
      parse <entry> <id>               -> NF | F out size tm
      encode <id> <out> <size> <tm>    -> <entry>
+     subkeypre <parent> <desc>        -> what Subkey feeds to the hash (prefix ++ parent ++ desc)
+     hashobj <chunk>*                 -> the state of a Hash after these Writes (= everything written)
+     fh reset | fh set <name> <sum> | fh get <name> <content|none>   -> FileHash's memo table: ok | ok | ERR | <sum>
    A hash that the table does not contain is answered by  NEED <content>  (nothing changes). *)
 exception Need of string
 
@@ -109,7 +112,19 @@ let faulty_put k kind j id p small =
         | Done (PutOk (out, size)) -> Printf.sprintf "DONE PUTOK %s %d" (hex_of_bytes out) (int_of_nat size) in
       res ^ " | " ^ String.concat " " (List.map show_op tr) ^ " | holds=" ^ string_of_bool holds ^ fds
 
+(* cache/hash.go: the memo table of FileHash *)
+let fh : (byte list * byte list) list ref = ref []
+
 let handle = function
+  | ["subkeypre"; parent; desc] -> hex_of_bytes (subkey_preimage (bytes_of_hex parent) (bytes_of_hex desc))
+  | "hashobj" :: chunks -> hex_of_bytes (List.fold_left hash_write new_hash (List.map arg chunks))
+  | ["fh"; "reset"] -> fh := []; "ok"
+  | ["fh"; "set"; name; sum] -> fh := set_file_hash !fh (bytes_of_hex name) (bytes_of_hex sum); "ok"
+  | ["fh"; "get"; name; content] ->
+      let disk = fun _ -> if content = "none" then None else Some (arg content) in
+      let (t', r) = file_hash h !fh disk (bytes_of_hex name) in
+      fh := t';
+      (match r with None -> "ERR" | Some s -> hex_of_bytes s)
   | ["hash"; c; v] -> Hashtbl.replace table (string_of_bytes (arg c)) (bytes_of_hex v); "ok"
   | ["def"; n; c] -> Hashtbl.replace defs n (Array.of_list (bytes_of_hex c)); "ok"
   | ["reset"] -> store := no_files; Hashtbl.reset known; "ok"
